@@ -105,6 +105,26 @@ def _term_info(t):
     return [[ord(ch) for ch in t.fqn], t.prior, kind, ln, rl, fin]
 
 
+def _mk_grammar(gtext):
+    """Grammar from a text, or from a set of files {"files": {name: text}, "root": name} written
+    to a fresh temporary directory (import-based grammars)."""
+    from parglare import Grammar
+    if isinstance(gtext, str):
+        return Grammar.from_string(gtext)
+    import tempfile
+    d = tempfile.mkdtemp(prefix="c16_")
+    try:
+        for name, text in gtext["files"].items():
+            with open(os.path.join(d, name), "w") as f:
+                f.write(text)
+        g = Grammar.from_file(os.path.join(d, gtext["root"]))
+        g.file_path = None          # no .pgc is written next to the temporary files
+        return g
+    finally:
+        import shutil
+        shutil.rmtree(d, ignore_errors=True)
+
+
 def _observe(gtext, opts, inputs, dump=False):
     """Everything the property says must not depend on the process.  Returns (obs, detail)."""
     import parglare
@@ -121,7 +141,7 @@ def _observe(gtext, opts, inputs, dump=False):
     # deterministic (a wall-clock limit would not be)
     try:
         with impl.time_limit(60), impl.quiet():
-            g = Grammar.from_string(gtext)
+            g = _mk_grammar(gtext)
             os.environ["PARGLARE_VERIF_MAX_STATES"] = "120"
             p = GLRParser(g, **kw)
     except BaseException as e:  # noqa
@@ -175,7 +195,7 @@ def _observe(gtext, opts, inputs, dump=False):
     # ---- LR parser: conflict exceptions and their text
     try:
         with impl.time_limit(60), impl.quiet():
-            g2 = Grammar.from_string(gtext)
+            g2 = _mk_grammar(gtext)
             os.environ["PARGLARE_VERIF_MAX_STATES"] = "120"
             lp = Parser(g2, **kw)
         obs["lr"] = "ok"
@@ -504,6 +524,19 @@ def gen_jobs(ctx):
         r = gramgen.nullable2_grammar(rng)
         if r is not None:
             cases.append(("nullable2", "null2_%d" % i, r[1], list(gramgen.all_strings(["a", "b"], 4))))
+    # import-based grammars: terminals with the same unqualified name in different modules
+    for i in range(12 if quick else 120):
+        r1, r2 = rng.sample([r"[a-z]+", r"[a-z0-9]+", r"\\w+", r"[a-c]+", r"[a-z]\\w*"], 2)
+        nm = rng.choice(["W", "WORD", "Tok", "id"])
+        rules = ["S: A m1.%s | A m2.%s | m1.X | m2.Y" % (nm, nm), "A: 'x'"]
+        if rng.random() < 0.5:
+            rules[0] += " | A B m2.%s m1.%s" % (nm, nm)
+            rules.append("B: 'x' | EMPTY")
+        files = {"root.pg": "import 'm1.pg' as m1;\nimport 'm2.pg' as m2;\n" + ";\n".join(rules) + ";\n",
+                 "m1.pg": "X: 'p' %s;\nterminals\n%s: /%s/;\n" % (nm, nm, r1),
+                 "m2.pg": "Y: 'q' %s;\nterminals\n%s: /%s/;\n" % (nm, nm, r2)}
+        cases.append(("imports", "imp%d" % i, {"files": files, "root": "root.pg"},
+                      ["x abc", "x ab1", "p abc", "q a1", "x x ab ab", "x"]))
     n_wide = 50 if quick else 500
     for i in range(n_wide):
         for gen, fam in ((gen_operator, "operators"), (gen_statements, "statements"),
@@ -583,8 +616,11 @@ def run(ctx):
     # quick: every job in all 4 processes.  thorough: every job in 8 processes, and the third of the
     # jobs with the most terminals in 24 more
     full = n_seeds if quick else 8
-    order = sorted(range(len(jobs)), key=lambda k: -len(set(gramgen.alphabet_of(jobs[k]["gtext"])) |
-                                                     set(jobs[k]["gtext"].split("'")[1::2])))
+    def _txt(k):
+        gt = jobs[k]["gtext"]
+        return gt if isinstance(gt, str) else "\n".join(gt["files"].values())
+    order = sorted(range(len(jobs)), key=lambda k: -len(set(gramgen.alphabet_of(_txt(k))) |
+                                                     set(_txt(k).split("'")[1::2])))
     subset = sorted(order[:len(jobs) // 3])
     index = [list(range(len(jobs)))] * full + [subset] * (n_seeds - full)
     joblists = [primary] + [plain] * (full - 1) + [[plain[k] for k in subset]] * (n_seeds - full)
@@ -666,7 +702,7 @@ def run(ctx):
             st["tables_with_conflicts"] += 1
         st["lr_outcomes"][o0["lr"].split(":")[0]] = st["lr_outcomes"].get(o0["lr"].split(":")[0], 0) + 1
         if o0["maxla"] >= 2:
-            distinct.add((job["gtext"], json.dumps(job["opts"], sort_keys=True)))
+            distinct.add((json.dumps(job["gtext"], sort_keys=True), json.dumps(job["opts"], sort_keys=True)))
         for c in o0["inputs"]:
             st["inputs"] += 1
             if c["status"] == "forest":
